@@ -152,8 +152,9 @@ def fibre(
         tas = [float(x[a_last]) if on else float((x[j] + x[a_last]) / 2)] if nta else []
         nta = 0
     for k in range(nta):
-        on = True if ta_on_ref else (bool(rng.random() < 0.5) if ta_on_grid is None else ta_on_grid)
-        cands = [j for j in range(2, nx - 2) if (not ta_on_ref or j in set(ref_ix.tolist())) and (ref_ix < j).sum() >= 2 and (ref_ix > j + (0 if on else 0)).sum() >= 2
+        on = True if ta_on_ref else (bool(rng.random() < 0.5) if ta_on_grid is None else bool(ta_on_grid))
+        # ta_on_grid == "offref": exactly on a sampling location that belongs to no reference section
+        cands = [j for j in range(2, nx - 2) if (not ta_on_ref or j in set(ref_ix.tolist())) and (ta_on_grid != "offref" or j not in set(ref_ix.tolist())) and (ref_ix < j).sum() >= 2 and (ref_ix > j + (0 if on else 0)).sum() >= 2
                  and all(abs(x[j] - q) > 1e-9 and abs((x[j] + x[j + 1]) / 2 - q) > 1e-9 for q in tas)]
         # every segment between consecutive splices must also keep two reference locations
         cands = [j for j in cands if all(((ref_ix > min(j, np.searchsorted(x, q))) & (ref_ix < max(j, np.searchsorted(x, q)))).sum() >= 2 for q in tas)]
